@@ -117,6 +117,45 @@ Theorem C37_clear_poke_tail : forall s, ring_ok s ->
 Proof. exact clear_poke_tail_thm. Qed.
 Print Assumptions C37_clear_poke_tail.
 
+(* ---- what each operation writes into the mirrored ring (extension round) ------------------------ *)
+
+(* a limit-checked key press writes exactly one slot, the one at tail, wherever head is: the key when there
+   is room, the uncounted CR (b"\r", scancode RETURN) when 15 keys wait; pointers and all other slots stay *)
+Theorem C37_press_writes_tail_slot : forall s c scan, ring_ok s -> zlen c <> 0 ->
+  let n := zlen (waiting s) in
+  let t := (start s + n) mod 16 in
+  exists s', append true c scan s = Ok s' /\ ring_ok s' /\ start s' = start s
+    /\ waiting s' = (if capacity <=? n then waiting s else waiting s ++ [(c, scan)])
+    /\ ring_read s' t = Ok (if capacity <=? n then cr_key else (c, scan))
+    /\ (forall i, 0 <= i < 16 -> i <> t -> ring_read s' i = ring_read s i).
+Proof. exact press_ring_thm. Qed.
+Print Assumptions C37_press_writes_tail_slot.
+
+Theorem C37_read_writes_no_slot : forall s, inv s -> forall i, ring_read (snd (getc s)) i = ring_read s i.
+Proof. exact read_ring_thm. Qed.
+Print Assumptions C37_read_writes_no_slot.
+
+(* the mirror is exactly the 16 slots at 1054..1085 (slot 15 at 1084/1085 included) *)
+Theorem C37_mirror_read : forall s i, inv s -> 0 <= i < 16 ->
+  exists k, ring_read s i = Ok k
+    /\ peek_mem s (1054 + 2 * i) = Ok (hd 0 (fst k)) /\ peek_mem s (1055 + 2 * i) = Ok (snd k).
+Proof. exact mirror_read_thm. Qed.
+Print Assumptions C37_mirror_read.
+
+Theorem C37_mirror_poke : forall s i odd v, inv s -> 0 <= i < 16 -> 0 <= odd <= 1 ->
+  exists s' k, ring_read s i = Ok k /\ poke_mem (1054 + 2 * i + odd) v s = Ok s' /\ inv s'
+    /\ start s' = start s /\ buflen s' = buflen s
+    /\ ring_read s' i = Ok (if odd =? 1 then (fst k, v)
+                            else if keybuf_poke_slot_blank v then ([], snd k) else ([v], snd k))
+    /\ (forall j, 0 <= j < 16 -> j <> i -> ring_read s' j = ring_read s j).
+Proof. exact mirror_poke_thm. Qed.
+Print Assumptions C37_mirror_poke.
+
+Theorem C37_mirror_extent : forall s a v, a <> 1050 -> a <> 1052 -> (a < 1054 \/ 1086 <= a) ->
+  poke_mem a v s = Ok s.
+Proof. exact mirror_extent_thm. Qed.
+Print Assumptions C37_mirror_extent.
+
 (* ---- non-vacuity ------------------------------------------------------------------------------- *)
 
 Example C37_nonvacuous_start : ring_ok init /\ inv init.
@@ -130,3 +169,10 @@ Example C37_nonvacuous_witness :
   /\ run_out (repeat (Down [65] 30) 20 ++ [Peek 1050; Peek 1052] ++ repeat Inkey 16)
      = [30; 60] ++ concat (repeat [1; 65] 15) ++ [0].
 Proof. vm_compute. repeat split; reflexivity. Qed.
+
+(* overflow with the head at slot 5: the CR lands in slot 4 (address 1062/1063), nothing else moves *)
+Example C37_nonvacuous_cr_slot :
+  run_out (repeat (Down [65] 30) 5 ++ repeat Inkey 5 ++ repeat (Down [66] 48) 16
+           ++ [Peek 1050; Peek 1052; Peek 1062; Peek 1063; Peek 1064; Peek 1060])
+  = concat (repeat [1; 65] 5) ++ [40; 38; 13; 28; 66; 66].
+Proof. vm_compute. reflexivity. Qed.
